@@ -812,6 +812,220 @@ fn sequence_fallback(o: &Opts) -> Option<String> {
     Some(path)
 }
 
+/// Diagnostic (NOT a check, and not this family's technique): one accumulate from a cleared quire,
+/// for EVERY operand (q16one: 2^16 single posits, += and -=; q32one: 2^32 single posits, += and -=;
+/// q16prod: all 2^32 operand pairs, +=; q8: everything), compared with the exact reference image.
+/// Used only to classify surviving mutant PAIRS of the accumulate code as equivalent or not.
+fn enumerate_fdp(what: &str) -> i32 {
+    use posit_ref::{decode, Dec, QT};
+    use sut::{Sp, Sut};
+    let bad = AtomicU64::new(0);
+    let examples: Mutex<Vec<String>> = Mutex::new(Vec::new());
+    let note = |s: String| {
+        let mut g = examples.lock().unwrap();
+        if g.len() < 6 {
+            g.push(s);
+        }
+    };
+    // exact image of +-(m * 2^pos) in w bits, as 8 big-endian limbs (pos = bit position of m's bit 0)
+    fn image(w: u32, neg: bool, m: u128, pos: u32) -> [u64; 8] {
+        let mut v = wide::Wide::from_u128(m).shl(pos);
+        if neg {
+            v = v.neg();
+        }
+        v.image(w)
+    }
+    let threads = 16u64;
+    match what {
+        "q16one" | "q16prod" | "q8" => {
+            let qt = if what == "q8" { QT::Q8 } else { QT::Q16 };
+            let n = 1u64 << qt.n();
+            // decode table
+            let tab: Vec<Option<(bool, u64, i32)>> = (0..n as u32)
+                .map(|p| match decode(qt, p) {
+                    Dec::Val { neg, m, e, .. } => Some((neg, m, e)),
+                    _ => None,
+                })
+                .collect();
+            let f = qt.f() as i32;
+            let run = |a: u32, b: Option<u32>, sub: bool| -> Option<String> {
+                let exp: [u64; 8] = {
+                    let nar = a == qt.nar() || b == Some(qt.nar());
+                    if nar {
+                        qt.nar_image()
+                    } else {
+                        match (tab[a as usize], b.map(|b| tab[b as usize])) {
+                            (Some((na, ma, ea)), None) => image(qt.w(), na ^ sub, ma as u128, (ea + f) as u32),
+                            (Some((na, ma, ea)), Some(Some((nb, mb, eb)))) => image(qt.w(), na ^ nb ^ sub, ma as u128 * mb as u128, (ea + eb + f) as u32),
+                            _ => [0; 8],
+                        }
+                    }
+                };
+                let got = std::panic::catch_unwind(|| {
+                    macro_rules! go {
+                        ($Q:ty) => {{
+                            let mut q = <$Q as Sut>::init(0);
+                            match b {
+                                None => q.acc(Sp::One, sub, &[a]),
+                                Some(b) => q.acc(Sp::Prod, sub, &[a, b]),
+                            }
+                            q.img(0)
+                        }};
+                    }
+                    if qt == QT::Q8 { go!(softposit::Q8E0) } else { go!(softposit::Q16E1) }
+                });
+                match got {
+                    Ok(g) if g == exp => None,
+                    Ok(_) => Some(format!("{}{:x} {:?}: wrong image", if sub { "-=" } else { "+=" }, a, b.map(|b| format!("{:x}", b)))),
+                    Err(_) => Some(format!("{}{:x} {:?}: panic", if sub { "-=" } else { "+=" }, a, b.map(|b| format!("{:x}", b)))),
+                }
+            };
+            if what != "q16prod" {
+                for a in 0..n as u32 {
+                    for sub in [false, true] {
+                        if let Some(m) = run(a, None, sub) {
+                            bad.fetch_add(1, Ordering::Relaxed);
+                            note(m);
+                        }
+                    }
+                }
+            }
+            if what != "q16one" {
+                std::thread::scope(|sc| {
+                    for t in 0..threads {
+                        let (run, bad, note) = (&run, &bad, &note);
+                        sc.spawn(move || {
+                            for a in (n * t / threads)..(n * (t + 1) / threads) {
+                                for b in 0..n {
+                                    let subs: &[bool] = if what == "q8" { &[false, true] } else { &[false] };
+                                    for &sub in subs {
+                                        if let Some(m) = run(a as u32, Some(b as u32), sub) {
+                                            bad.fetch_add(1, Ordering::Relaxed);
+                                            note(m);
+                                        }
+                                    }
+                                }
+                            }
+                        });
+                    }
+                });
+            }
+        }
+        "q32one" => {
+            let qt = QT::Q32;
+            std::thread::scope(|sc| {
+                for t in 0..threads {
+                    let (bad, note) = (&bad, &note);
+                    sc.spawn(move || {
+                        for a in ((1u64 << 32) * t / threads)..((1u64 << 32) * (t + 1) / threads) {
+                            let a = a as u32;
+                            for sub in [false, true] {
+                                let exp = if a == qt.nar() {
+                                    qt.nar_image()
+                                } else {
+                                    match decode(qt, a) {
+                                        Dec::Val { neg, m, e, .. } => image(512, neg ^ sub, m as u128, (e + 240) as u32),
+                                        _ => [0; 8],
+                                    }
+                                };
+                                let got = std::panic::catch_unwind(|| {
+                                    let mut q = <softposit::Q32E2 as Sut>::init(0);
+                                    q.acc(Sp::One, sub, &[a]);
+                                    q.img(0)
+                                });
+                                if got.as_ref().ok() != Some(&exp) {
+                                    bad.fetch_add(1, Ordering::Relaxed);
+                                    note(format!("{}{:x}: {}", if sub { "-=" } else { "+=" }, a, if got.is_ok() { "wrong image" } else { "panic" }));
+                                }
+                            }
+                        }
+                    });
+                }
+            });
+        }
+        "q32prod" => {
+            // not exhaustive (2^64 pairs): every (sign, regime polarity and length, exponent) class of
+            // both factors, with 600 fraction fillings each (random, all zeros, all ones, single bits)
+            let qt = QT::Q32;
+            let mk = |neg: bool, rl: u32, pol: bool, e: u32, fill: u64| -> u32 {
+                let mut body: u32 = 0;
+                let mut used = 0u32;
+                for i in 0..31u32 {
+                    let bit = if i < rl {
+                        pol
+                    } else if i == rl {
+                        !pol
+                    } else if i - rl - 1 < 2 {
+                        (e >> (1 - (i - rl - 1))) & 1 != 0
+                    } else {
+                        used += 1;
+                        (fill >> (used % 64)) & 1 != 0
+                    };
+                    body = (body << 1) | bit as u32;
+                }
+                if body == 0 {
+                    body = 1;
+                }
+                if neg { body.wrapping_neg() } else { body }
+            };
+            std::thread::scope(|sc| {
+                for t in 0..threads {
+                    let (bad, note, mk) = (&bad, &note, &mk);
+                    sc.spawn(move || {
+                        let mut rng = prng::Prng::for_run(7, 77, t);
+                        for rla in 1..=30u32 {
+                            if (rla as u64) % threads != t % threads && threads > 1 && (rla as u64 % threads) != t {
+                                continue;
+                            }
+                            for rlb in 1..=30u32 {
+                                for cls in 0..(2 * 2 * 2 * 2 * 4 * 4) as u32 {
+                                    let (na, nb, pa, pb) = (cls & 1 != 0, cls & 2 != 0, cls & 4 != 0, cls & 8 != 0);
+                                    let (ea, eb) = ((cls >> 4) & 3, (cls >> 6) & 3);
+                                    for k in 0..400u32 {
+                                        let (fa, fb) = match k {
+                                            0 => (0, 0),
+                                            1 => (u64::MAX, u64::MAX),
+                                            2 => (u64::MAX, 0),
+                                            3 => (1 << (rng.below(28) + 1), u64::MAX),
+                                            _ => (rng.next(), rng.next()),
+                                        };
+                                        let a = mk(na, rla, pa, ea, fa);
+                                        let b = mk(nb, rlb, pb, eb, fb);
+                                        if a == qt.nar() || b == qt.nar() {
+                                            continue;
+                                        }
+                                        let sub = k & 1 == 1;
+                                        let exp = posit_ref::product_units(qt, a, b).map(|w| if sub { w.neg() } else { w }).unwrap().image(512);
+                                        let got = std::panic::catch_unwind(|| {
+                                            let mut q = <softposit::Q32E2 as Sut>::init(0);
+                                            q.acc(Sp::Prod, sub, &[a, b]);
+                                            q.img(0)
+                                        });
+                                        if got.as_ref().ok() != Some(&exp) {
+                                            bad.fetch_add(1, Ordering::Relaxed);
+                                            note(format!("{}({:x},{:x}): {}", if sub { "-=" } else { "+=" }, a, b, if got.is_ok() { "wrong image" } else { "panic" }));
+                                        }
+                                    }
+                                }
+                            }
+                        }
+                    });
+                }
+            });
+        }
+        x => {
+            eprintln!("enumerate-fdp: unknown mode {x}");
+            return 2;
+        }
+    }
+    let n = bad.load(Ordering::Relaxed);
+    println!("ENUMERATE-FDP {what} bad={n}");
+    for l in examples.lock().unwrap().iter() {
+        println!("  {l}");
+    }
+    if n == 0 { 0 } else { 1 }
+}
+
 /// Diagnostic (NOT a check, and not this family's technique): enumerate the whole word -> sample
 /// mapping of the three samplers as they are today (one accepted word per `gen_range` call:
 /// P8E0 64 values, P16E1 2^18, P32E2 2^27 x 4), assuming rand 0.8's mapping for the crate's present
@@ -1464,6 +1678,7 @@ fn main() {
         },
         Some("seqfind") => cmd_seqfind(&args[1..]),
         Some("enumerate-samplers") => enumerate_samplers(),
+        Some("enumerate-fdp") => enumerate_fdp(args.get(1).map(|s| s.as_str()).unwrap_or("q16one")),
         Some("probe-suite-fma") => probe_suite_fma(args.get(1).and_then(|v| v.parse().ok()).unwrap_or(10_000_000)),
         Some("replay") => match args.get(1) {
             Some(p) => do_replay(p),
